@@ -9,7 +9,7 @@ WHAT IS MODELLED (integer logic, line by line, same branches / same order of rai
                              ZeroDivisionError`, negative `bd` with Python `//`, `%`, `(x,)*negative = ()`).
 * `roundTo c s`              `round_to` on ints; `roundToF cf exact s` `round_to` on a non-negative FLOAT `c`
                              given only `cf = floor c` and `exact = (c == floor c)` (all the code needs).
-* `normalizeChunks`          `normalize_chunks` after the presentation layer (list→tuple, scalar→replicated,
+* `normalizeChunks`          (= `prepare` → `checkBytes` → `resolveAuto` → `finalize`) `normalize_chunks` after the presentation layer (list→tuple, scalar→replicated,
                              dict→tuple with `None` for missing axes, ndarray→list, byte strings parsed by
                              `dask.utils.parse_bytes`): the all-zero-shape default, the rank-1 "missing outer
                              tuple" clean-up, the rank check, `-1`/`None` ↦ axis length, the byte-string / `limit`
